@@ -198,3 +198,13 @@ def run(rep, ctx, tier):
             "filtered together or not at all (violations are reported per site)", None, nontrivial=False)
     if zips < 1:
         rep.add("R4a", "floor", False, "no proof-vs-claims zip found in any verifier (floor is 1; fail closed)", None)
+
+
+_run_base_r5f = run
+
+
+def run(rep, ctx, tier):
+    _run_base_r5f(rep, ctx, tier)
+    # every transcript-sampled column index is checked (C13's R5f instance: the relation mentions every sampled position)
+    from .c13 import sampled_indices_unfiltered
+    sampled_indices_unfiltered(rep, ctx)
